@@ -383,15 +383,28 @@ pub fn c12(ctx: &Ctx) -> i32 {
             4 => tick.wrapping_add(rng.below(3) as u32).wrapping_sub(1),
             _ => u32::MAX - rng.below(3) as u32,
         };
-        let mut b: OrderBook<1> = OrderBook::new(0, tick, true);
         let bid = rng.chance(0.5);
-        let r = b.create_order(crate::real::side_of(bid), 1, 0, Some(price));
         let on_grid = price % tick == 0;
         pure += 1;
-        if r.is_ok() != on_grid || (r.is_err() && !b.get_orders().is_empty()) || b.create_order(crate::real::side_of(bid), 1, 0, None).ok() != Some(if on_grid { 1 } else { 0 }) {
+        // Ok(None) = as specified; Ok(Some(text)) = wrong answer; Err = the request aborted
+        let outcome = catch(|| {
+            let mut b: OrderBook<1> = OrderBook::new(0, tick, true);
+            let r = b.create_order(crate::real::side_of(bid), 1, 0, Some(price));
+            if r.is_ok() != on_grid || (r.is_err() && !b.get_orders().is_empty()) || b.create_order(crate::real::side_of(bid), 1, 0, None).ok() != Some(if on_grid { 1 } else { 0 }) {
+                Some(format!("{:?}", r.map_err(|e| e.to_string())))
+            } else {
+                None
+            }
+        });
+        let bad = match outcome {
+            Ok(None) => None,
+            Ok(Some(t)) => Some(("accept_iff_on_grid", t)),
+            Err(p) => Some(("creation_aborted", format!("panic: {}", p))),
+        };
+        if let Some((kind, text)) = bad {
             violations.push(Violation {
-                signature: "C12:grid:accept_iff_on_grid".into(),
-                summary: format!("create_order(price {}, tick {}) -> {:?}; expected {}", price, tick, r.map_err(|e| e.to_string()), if on_grid { "Ok" } else { "Err" }),
+                signature: format!("C12:grid:{}", kind),
+                summary: format!("create_order(price {}, tick {}) -> {}; expected {}", price, tick, text, if on_grid { "Ok" } else { "Err" }),
                 replay: json!({"kind": "c12_pure", "tick": tick, "price": price, "bid": bid}),
             });
             break;
